@@ -1,6 +1,7 @@
 import ShmVerif.Gen.Consts
 import ShmVerif.Gen.Skel
 import ShmVerif.Model.Pipe
+import ShmVerif.Tie.Pending
 /-! Tie 1 for C06/C08: the bodies of buffer_slice.go / buffer.go / the data path of stream.go and the allocator entry
     points the models `LinkedBuffer` and `Pipe` mirror statement by statement, re-checked against the regenerated `Gen`. -/
 namespace Tie.C06
@@ -704,66 +705,7 @@ theorem tie_skel_Stream_readMore : Gen.Skel.Stream_readMore = [
   "}",
   "}"] := by rfl
 
-theorem tie_skel_pendingData_moveToWithoutLock : Gen.Skel.pendingData_moveToWithoutLock = [
-  "func (r *pendingData) moveToWithoutLock(toBuf *linkedBuffer) {",
-  "if len(r.unread) == 0 {",
-  "return",
-  "}",
-  "preLen := toBuf.Len()",
-  "for i := range r.unread {",
-  "if r.unread[i].fallbackSlice != nil {",
-  "toBuf.appendBufferSlice(r.unread[i].fallbackSlice)",
-  "r.stream.inFallbackState = true",
-  "continue",
-  "}",
-  "for offset := r.unread[i].offset; ; {",
-  "slice, err := r.stream.session.bufferManager.readBufferSlice(offset)",
-  "if err != nil {",
-  "break",
-  "}",
-  "if slice.size() == 0 {",
-  "if toBuf.sliceList.front() == nil {",
-  "offset = slice.nextBufferOffset()",
-  "r.stream.session.bufferManager.recycleBuffer(slice)",
-  "continue",
-  "}",
-  "preSlice := toBuf.sliceList.back()",
-  "if slice.hasNext() {",
-  "preSlice.linkNext(slice.nextBufferOffset())",
-  "offset = slice.nextBufferOffset()",
-  "r.stream.session.bufferManager.recycleBuffer(slice)",
-  "continue",
-  "} else {",
-  "preSlice.clearFlag()",
-  "preSlice.setInUsed()",
-  "r.stream.session.bufferManager.recycleBuffer(slice)",
-  "break",
-  "}",
-  "}",
-  "toBuf.appendBufferSlice(slice)",
-  "if !slice.hasNext() {",
-  "break",
-  "}",
-  "offset = slice.nextBufferOffset()",
-  "}",
-  "}",
-  "atomic.AddUint64(&r.stream.session.stats.inFlowBytes, uint64(toBuf.Len()-preLen))",
-  "r.unread = r.unread[:0]",
-  "}"] := by rfl
-
-theorem tie_skel_pendingData_moveTo : Gen.Skel.pendingData_moveTo = [
-  "func (r *pendingData) moveTo(toBuf *linkedBuffer) {",
-  "r.Lock()",
-  "r.moveToWithoutLock(toBuf)",
-  "r.Unlock()",
-  "}"] := by rfl
-
-theorem tie_skel_pendingData_add : Gen.Skel.pendingData_add = [
-  "func (r *pendingData) add(w bufferSliceWrapper) {",
-  "r.Lock()",
-  "r.unread = append(r.unread, w)",
-  "r.Unlock()",
-  "}"] := by rfl
+/- pendingData.moveToWithoutLock / moveTo / add are tied in `Tie.Pending` (shared with C20) -/
 
 theorem tie_skel_bufferManager_readBufferSlice_c06 : Gen.Skel.bufferManager_readBufferSlice = [
   "func (b *bufferManager) readBufferSlice(offset uint32) (*bufferSlice, error) {",
